@@ -31,6 +31,7 @@ import (
 	"bytes"
 
 	"tunnox-core/internal/client"
+	"tunnox-core/internal/client/mapping"
 	"tunnox-core/internal/utils/iocopy"
 	vc "tunnox-core/internal/verifharness/common"
 )
@@ -854,6 +855,9 @@ func runUDP(toks []string) (string, error) {
 		tchunks = append(tchunks, rest)
 	}
 
+	if toks[0] == "udpv" {
+		return execUDPV(tchunks, ttail, sc), nil
+	}
 	hasHold := strings.ContainsAny(sc, "U")
 	var obs string
 	for attempt := 0; attempt < 5; attempt++ {
@@ -1104,6 +1108,135 @@ func execUDP(evs []uev, dgs [][]byte, utail string, tchunks [][]byte, ttail stri
 	}
 }
 
+// ---------------------------------------------------------------- UDP relay with the real asynchronous local socket
+
+// gpc: the UDP socket under mapping.UDPVirtualConn. Every WriteTo (issued by the session's writeLoop)
+// waits until the scheduler lets the socket accept it; the bytes are read from the caller's slice only then.
+type gpc struct {
+	mu      sync.Mutex
+	waiting atomic.Int64
+	done    atomic.Int64
+	grants  chan struct{}
+	free    atomic.Bool
+	sent    [][]byte
+}
+
+type fakeAddr string
+
+func (a fakeAddr) Network() string { return "udp" }
+func (a fakeAddr) String() string  { return string(a) }
+
+func (g *gpc) WriteTo(p []byte, _ net.Addr) (int, error) {
+	g.waiting.Add(1)
+	if !g.free.Load() {
+		<-g.grants
+	}
+	g.mu.Lock()
+	g.sent = append(g.sent, append([]byte(nil), p...))
+	g.mu.Unlock()
+	g.waiting.Add(-1)
+	g.done.Add(1)
+	return len(p), nil
+}
+func (g *gpc) ReadFrom(p []byte) (int, net.Addr, error) { select {} }
+func (g *gpc) Close() error                             { return nil }
+func (g *gpc) LocalAddr() net.Addr                      { return fakeAddr("local") }
+func (g *gpc) SetDeadline(time.Time) error              { return nil }
+func (g *gpc) SetReadDeadline(time.Time) error          { return nil }
+func (g *gpc) SetWriteDeadline(time.Time) error         { return nil }
+
+// countConn passes everything through to the virtual connection and counts the datagrams it accepted.
+type countConn struct {
+	v      *mapping.UDPVirtualConn
+	writes atomic.Int64
+}
+
+func (c *countConn) Read(p []byte) (int, error) { return c.v.Read(p) }
+func (c *countConn) Write(p []byte) (int, error) {
+	n, err := c.v.Write(p)
+	if err == nil {
+		c.writes.Add(1)
+	}
+	return n, err
+}
+func (c *countConn) Close() error { return c.v.Close() }
+
+// execUDPV: udpv U hold 0 T <tail> 0 tds … s <schedule over t,s>
+// iocopy.UDP between the REAL mapping.UDPVirtualConn (as tunnel.runDataCopy uses it) and a gated tunnel double.
+// t: one iteration of the tunnel->UDP goroutine; s: the socket accepts the next datagram of the send loop.
+func execUDPV(tchunks [][]byte, ttail string, sc string) string {
+	sock := &gpc{grants: make(chan struct{}, 1<<16)}
+	vconn := mapping.VerifNewUDPVirtualConn(sock, fakeAddr("app"))
+	T := newConn("T", tchunks, ttail, false, -1, false, false)
+	var returned atomic.Bool
+	cc := &countConn{v: vconn}
+	ch := runRelay(func() *iocopy.Result { return iocopy.UDP(cc, T, nil) }, &returned)
+	s := &sched{conns: []*gconn{T}}
+	finDec := func() bool { return vconn.VerifClosed() || returned.Load() }
+	pending := func() int { return int(cc.writes.Load() - sock.done.Load()) }
+	send := func() {
+		if pending() == 0 || s.stalls > 0 {
+			return
+		}
+		if !waitUntil(func() bool { return sock.waiting.Load() > 0 }, stallTimeout) {
+			s.stall()
+			return
+		}
+		d := sock.done.Load()
+		sock.grants <- struct{}{}
+		if !waitUntil(func() bool { return sock.done.Load() > d }, stallTimeout) {
+			s.stall()
+		}
+	}
+	stepT := func() {
+		if finDec() || s.stalls > 0 {
+			return
+		}
+		if T.exhausted() {
+			// the end of the tunnel is about to be delivered: the relay will close the session, which stops its
+			// send loop (a datagram still queued then may be dropped: UDP teardown) - let the socket take the queue first
+			for pending() > 0 && s.stalls == 0 {
+				send()
+			}
+		}
+		s.grant(T, finDec)
+	}
+	for _, t := range sc {
+		switch t {
+		case 't':
+			stepT()
+		case 's':
+			send()
+		}
+	}
+	for j := 0; j < stepsFor(tchunks) && !finDec(); j++ {
+		stepT()
+	}
+	select {
+	case rr := <-ch:
+		sock.free.Store(true)
+		if rr.panic != "" {
+			return rr.panic
+		}
+		r := rr.r
+		sock.mu.Lock()
+		defer sock.mu.Unlock()
+		var sb strings.Builder
+		fmt.Fprintf(&sb, "ret 1 tun %s udp %d", vc.Hex(T.stream), len(sock.sent))
+		for _, d := range sock.sent {
+			sb.WriteString(" " + vc.Hex(d))
+		}
+		fmt.Fprintf(&sb, " nread 0 serr %s rerr %s sent %d recv %d", b01(r.SendError != nil), b01(r.ReceiveError != nil),
+			r.BytesSent, r.BytesReceived)
+		return sb.String()
+	case <-time.After(watchdog):
+		timeouts.Add(1)
+		s.stall()
+		sock.free.Store(true)
+		return fmt.Sprintf("timeout stalls %d udp %d", s.stalls, len(sock.sent))
+	}
+}
+
 // ---------------------------------------------------------------- SOCKS5 UDP tunnel codec
 
 // runS5: s5 <eof|err> ds <k> d*k cut <n> ch <k> sizes
@@ -1248,7 +1381,7 @@ func execLine(line string) string {
 	switch toks[0] {
 	case "tcp":
 		obs, err = runTCP(toks)
-	case "udp":
+	case "udp", "udpv":
 		obs, err = runUDP(toks)
 	case "s5":
 		obs, err = runS5(toks)
